@@ -179,6 +179,11 @@ pub fn gen_ws(ch: &mut Chooser, cx: &mut CaseCtx, o: &WsGenOpts) -> WsCase {
             t0.files.insert(p, TFile { data: B(join_lines(&lines)), mode: *ch.pick(MODES) });
         }
     }
+    if ch.chance(1, 4) {
+        if let Some(p) = new_path(ch, &t0, &[], false) {
+            t0.files.insert(p, TFile { data: B(vec![]), mode: *ch.pick(MODES) });
+        }
+    }
     let npatches = ch.range(1, o.max_patches);
     let inject = ch.chance(o.fail_chance, 8);
     let fail_idx = if inject { Some(ch.below(npatches)) } else { None };
@@ -361,6 +366,57 @@ pub fn gen_ws(ch: &mut Chooser, cx: &mut CaseCtx, o: &WsGenOpts) -> WsCase {
                     //  V1 the new name is an existing non-empty file: refused, the patch fails, no reject for it
                     //  V2 the old name does not exist and the new name does ("already has the name"): the hunks
                     //     go to the new name in place; used only when the patch fails anyway
+                    //  V3 the new name is an existing EMPTY file: the rename is carried out (and must be undone: the
+                    //     empty file is there again afterwards, with its mode)
+                    //  V4 neither name exists: there is nothing to rename, the patch fails, nothing is left behind
+                    let empties: Vec<String> = existing.iter().filter(|p| next.files[*p].data.is_empty()).cloned().collect();
+                    let variant = ch.below(4);
+                    if variant == 2 && !empties.is_empty() {
+                        let b = empties[ch.below(empties.len())].clone();
+                        let a = nonempty[ch.below(nonempty.len())].clone();
+                        let fa = next.files[&a].clone();
+                        let alines = split_lines(&fa.data);
+                        let (nl, eops) = if ch.chance(1, 2) { gen_edit(ch, &alines, alpha, true) } else { (alines.clone(), vec![Op::Keep; alines.len()]) };
+                        let chg = FileChange { old_path: a.clone(), new_path: b.clone(), old: Some(alines.clone()), new: Some(nl), old_mode: Some(fa.mode), new_mode: Some(fa.mode), rename: true };
+                        let mut fp = build_file_patch(ch, &d, &chg, &eops, c.max(1), merge);
+                        let mut failing = vec![];
+                        let mut fail_reason = None;
+                        if want_fail && !fp.hunks.is_empty() && rej_dir_ok(&a) {
+                            let hi = ch.below(fp.hunks.len());
+                            if break_hunk(&mut fp.hunks[hi], b'-') {
+                                failing = vec![hi];
+                                fail_reason = Some("no-match".into());
+                                any_failed = true;
+                            }
+                        }
+                        if fail_reason.is_none() && !any_failed {
+                            continue;
+                        }
+                        feat.push("rename-onto-existing-empty-file-undone".into());
+                        touched.push(a.clone());
+                        touched.push(b.clone());
+                        ops.push(FileOp { kind: "rename".into(), old_path: a.clone(), new_path: b, target: a, hunks: fp.hunks.clone(), failing_hunks: failing, fail_reason });
+                        specs.push(fp);
+                        continue;
+                    }
+                    if variant == 3 && want_fail {
+                        let Some(a) = new_path(ch, &next, &ever, false) else { continue };
+                        ever.push(a.clone());
+                        let Some(b) = new_path(ch, &next, &ever, false) else { continue };
+                        ever.push(b.clone());
+                        let lines = vec![B::new("one\n"), B::new("two\n"), B::new("three\n")];
+                        let (nl, eops) = if ch.chance(1, 2) { gen_edit(ch, &lines, alpha, true) } else { (lines.clone(), vec![Op::Keep; lines.len()]) };
+                        let chg = FileChange { old_path: a.clone(), new_path: b.clone(), old: Some(lines.clone()), new: Some(nl), old_mode: Some(0o644), new_mode: Some(0o644), rename: true };
+                        let fp = build_file_patch(ch, &d, &chg, &eops, c.max(1), merge);
+                        sole_failure = !any_failed && ch.chance(1, 2);
+                        any_failed = true;
+                        feat.push("rename-of-a-file-that-does-not-exist".into());
+                        touched.push(a.clone());
+                        touched.push(b.clone());
+                        ops.push(FileOp { kind: "rename".into(), old_path: a.clone(), new_path: b, target: a, hunks: fp.hunks.clone(), failing_hunks: vec![], fail_reason: Some("rename-source-missing".into()) });
+                        specs.push(fp);
+                        continue;
+                    }
                     let bi = ch.below(nonempty.len());
                     let b = nonempty[bi].clone();
                     let fb = next.files[&b].clone();
